@@ -103,6 +103,7 @@ func TestC02(t *testing.T) {
 	r.Assume("glob/regex semantics are not under test here (C03)", "rules sharing one expression carry equal backtracking flags")
 
 	c02Exhaustive(r)
+	c02Triples(r)
 	c02Random(r)
 	c02Repository(r)
 
@@ -214,6 +215,87 @@ func c02Exhaustive(r *core.Run) {
 	r.Count("exhaustive_sets_rejected_by_tree", int(rejected))
 	r.Count("exhaustive_same_shape_pairs_skipped", int(skipped))
 	r.Sample(map[string]any{"kind": "exhaustive", "expressions": exprs[:6], "paths": paths[:6]})
+}
+
+// c02Triples: exhaustive sets of three expressions from a small pool with heavy prefix sharing (an expression,
+// static extensions of it, and less specific wildcard expressions matching the same paths), all 6 insertion
+// orders, all backtracking flags and condition states. Interactions between three nodes (e.g. a later, longer
+// expression disturbing the flag or the values of an earlier, shorter one) need at least three expressions.
+func c02Triples(r *core.Run) {
+	pool := []string{"/a", "/a/b", "/ab", "/a/:x", "/:x", "/:x/b", "/*r", "/a/*r", "/a/", "/:x/:y", "/ab/c", "/a/b/c", "/:x/*r", "/a/b/:y"}
+	paths := []string{"/a", "/a/b", "/ab", "/a/c", "/c", "/c/b", "/a/", "/ab/c", "/a/b/c", "/a/b/d", "/c/d/e", "/abc", "/a/b/"}
+	if r.Thorough() {
+		pool = append(pool, "/ab/:x", "/:x/b/c", "/a/:x/c", "/abc", "/:x/", "/a/b/*r")
+		paths = append(paths, "/ab/d", "/c/b/c", "/a/d/c", "/abc/d", "/c/", "/a/b/c/d")
+	}
+	perms := [][3]int{{0, 1, 2}, {0, 2, 1}, {1, 0, 2}, {1, 2, 0}, {2, 0, 1}, {2, 1, 0}}
+	type job struct{ i, j, k int }
+	jobs := make(chan job, 256)
+	var wg sync.WaitGroup
+	for w := 0; w < runtime.NumCPU(); w++ {
+		wg.Add(1)
+		go func() {
+			defer wg.Done()
+			var nEval int
+			var nontriv []uint64
+			for jb := range jobs {
+				base := []string{pool[jb.i], pool[jb.j], pool[jb.k]}
+				for bt := 0; bt < 8; bt++ {
+					for cond := 0; cond < 8; cond++ {
+						var ref []core.RefRule
+						for _, pm := range perms {
+							rules := make([]trule, 3)
+							for pos, idx := range pm {
+								rules[pos] = trule{Expr: base[idx], ID: idx, Cond: (cond >> idx & 1) * 2, BT: bt>>idx&1 == 1}
+							}
+							tr, err := buildTree(rules)
+							if err != nil {
+								continue
+							}
+							if ref == nil {
+								ref = refRules(rules)
+							}
+							tag := 1
+							if cond == 0 {
+								tag = 0
+							}
+							for _, p := range paths {
+								exp := refLookupID(ref, p, tag)
+								got := treeLookup(tr, p, tag)
+								nEval++
+								if matchingExprs(ref, p) >= 2 {
+									nontriv = append(nontriv, core.HashKey(fmt.Sprint(rules, p, tag)))
+								}
+								if exp != got {
+									r.Violation("tree-mismatch", fmt.Sprintf("tree chose rule %d, reference %d for path %q", got, exp, p),
+										c02Case{rules, p, tag, exp, got, "tree/exhaustive-triples"})
+								}
+							}
+						}
+					}
+				}
+				if len(nontriv) > 1<<16 {
+					r.AddHashes(nEval, nil, nontriv)
+					r.Count("nontrivial", len(nontriv))
+					nEval, nontriv = 0, nontriv[:0]
+				}
+			}
+			r.AddHashes(nEval, nil, nontriv)
+			r.Count("nontrivial", len(nontriv))
+		}()
+	}
+	n := 0
+	for i := range pool {
+		for j := i + 1; j < len(pool); j++ {
+			for k := j + 1; k < len(pool); k++ {
+				jobs <- job{i, j, k}
+				n++
+			}
+		}
+	}
+	close(jobs)
+	wg.Wait()
+	r.Count("exhaustive_triples", n)
 }
 
 func genRandomSet(rng *rand.Rand, pool []string, maxExpr int) []trule {
